@@ -148,6 +148,19 @@ mod verif_chunks {
         kani::cover!(inside && c == d && c == b);
     }
 
+    /// chunks_with_overlap documents (asserts) overlap < chunk_size: with overlap >= chunk_size
+    /// the stride would be zero or negative and the iterator could not make progress. The call
+    /// must never return in that case (should_panic + cover that must be unsatisfiable).
+    #[kani::proof]
+    #[kani::should_panic]
+    pub fn chunks_rejects_overlap_ge_chunk_size() {
+        let data = [0u32; 4];
+        let (chunk, overlap): (usize, usize) = (kani::any(), kani::any());
+        kani::assume(overlap >= chunk);
+        let _it = data[..].chunks_with_overlap(chunk, overlap);
+        kani::cover!(true, "chunks_with_overlap returned for overlap >= chunk_size");
+    }
+
     #[kani::proof]
     pub fn canary() {
         let x: u8 = kani::any();
